@@ -1,5 +1,6 @@
 import TlsModel.Proto
 import TlsModel.Conn
+import TlsModel.ConnFrag
 /-
   Line protocol shared by the C16 and C17 drivers (stateful: one World).
     init <ver13:0|1>                          -> ok          fresh world
@@ -9,6 +10,7 @@ import TlsModel.Conn
                                               -> <out> <state of that endpoint>
     st <c|s>                                  -> - <state>
     hsfault <steps> <i> <eof|reset|pipe> <pendingAlertDesc|->   -> <exc|none> closed res complete
+    reasm <ver13> <frag>...   (w:<msg> | p:<msg>:<i>:<n>)       -> ok <messages> pend=<0|1> | err <alert>
     hsalert <level> <desc>                                     -> <exc> closed res complete
   msg: app <hex> | ku <v> | nst | creq <ctx> <0|1> | cert <ctx> <chain> | cv <a> <c> <s> | fin <ok>
        | hso <t> | hsm <t> | hb <mt> <hex> <pad> | hbbad | alert <lvl> <desc> | ccs | empty | unk
@@ -35,6 +37,7 @@ def parseMsg : List String → Option Msg
     let t ← t.toNat?
     if [24, 4, 13, 11, 15, 20].contains t then none else some (.hsOther t)
   | ["hsm", t] => do some (.hsMalformed (← t.toNat?))
+  | ["kuco", v] => do some (.kuCoalesced (← v.toNat?))
   | ["hb", mt, h, p] => do some (.heartbeat (← mt.toNat?) (← ofHex h) (← p.toNat?))
   | ["hbbad"] => some .heartbeatBad
   | ["alert", l, d] => do some (.alert (← l.toNat?) (← d.toNat?))
@@ -52,6 +55,7 @@ def parseOp : List String → Option Op
   | ["pha"] => some .requestClientAuth
   | ["hb", h, p] => do some (.heartbeat (← ofHex h) (← p.toNat?))
   | ["close"] => some .close
+  | ["makefile"] => some .makefile
   | "inject" :: rest => do some (.inject (← parseMsg rest))
   | ["kill", k] => do
     let k ← k.toNat?
@@ -90,7 +94,7 @@ def stateStr (e : End) : String :=
     | some (p, n) => s!"{e.hbLog.length}:{hexOut p}:{n}"
     | none => "0"
   s!"closed={bit e.closed} res={bit e.resumable} rg={e.readGen} wg={e.writeGen} tk={e.tickets} " ++
-  s!"chain={if e.chainSet then toString e.clientChain else "-"} reqs={e.certReqs.length} hb={hb} buf={e.readBuf.length}"
+  s!"chain={if e.chainSet then toString e.clientChain else "-"} reqs={e.certReqs.length} hb={hb} buf={e.readBuf.length} rc={e.refCount}"
 
 def parseSteps (s : String) : Option (List IoStep) :=
   s.toList.mapM fun c =>
@@ -105,6 +109,22 @@ def parseFault : String → Option Fault
   | "eof" => some .eof
   | "reset" => some .reset
   | "pipe" => some .pipe
+  | _ => none
+
+/-- `w:<msg>` whole record, `p:<msg>:<i>:<n>` i-th of n pieces; msg in nst ku0 ku1 app hb alert -/
+def parseFragMsg : String → Option Msg
+  | "nst" => some .newSessionTicket
+  | "ku0" => some (.keyUpdate 0)
+  | "ku1" => some (.keyUpdate 1)
+  | "app" => some (.appData [120])
+  | "hb" => some (.heartbeat 1 [] 16)
+  | "alert" => some (.alert 1 90)
+  | _ => none
+
+def parseFrag (t : String) : Option Frag :=
+  match t.splitOn ":" with
+  | ["w", m] => do some ⟨0, .whole (← parseFragMsg m)⟩
+  | ["p", m, i, n] => do some ⟨0, .part (← parseFragMsg m) (← i.toNat?) (← n.toNat?)⟩
   | _ => none
 
 def initWorld (v13 : Bool) : World :=
@@ -142,6 +162,13 @@ def handle (w : World) : List String → World × Option String
         (w, some s!"{match r.exc with | some e => e.str | none => "none"} closed={bit r.closed} res={bit r.resumable} complete={bit r.complete}")
       | none => (w, none)
     | _, _, _ => (w, none)
+  | "reasm" :: v :: frags =>
+    match b01 v, frags.mapM parseFrag with
+    | some v13, some fs =>
+      match reasm v13 none fs with
+      | .ok (rs, p) => (w, some s!"ok {rs.length} pend={bit p.isSome}")
+      | .error d => (w, some s!"err {d}")
+    | _, _ => (w, none)
   | ["hsalert", lvl, d] =>
     match lvl.toNat?, d.toNat? with
     | some lvl, some d =>
